@@ -44,9 +44,9 @@ claimed.update({
  "C20": ("Two schema files with different ids under three package/output layouts, both argument orders, with and without the second file on the command line: outputs carry the mapped names, the emitted packages type-check TOGETHER (qualified cross-package references and imports), every root type lands in the package of its id only, and all explored orders emit identical files.",
          "F=2 files with concrete ids; virtual file system stub for os.Stat. Recorded finding: same-named definitions of two schemas in one package clash."),
 })
-not_applicable_wip = {
- "C13": "the listed spellings (JSON vs YAML, id vs $id, definitions vs $defs, type as string vs list, true vs {}) differ only in the byte-level parsers (encoding/json driven by struct tags and UnmarshalJSON methods, goccy/go-yaml); after parsing they are the same Go value, so a solver-based check that starts from the parsed representation would assume the property, and encoding the parsers (reflection-driven, byte loops) is out of reach of the hand-written go/ssa encoder in the time available; the seeded change C13a is therefore not detected (DESIGN §9)",
-}
+claimed["C13"] = ("A symbolic schema DOCUMENT and its re-spelling (any subset of id/$id, definitions/$defs, dependencies/dependentSchemas, at every object level, as a renamed view of the same symbolic document; type as string vs one-element list; true vs {}) are pushed through the REAL Schema/Type/TypeList.UnmarshalJSON with the encoding/json decode stub: same parse outcome and parsed values equal on every pkg/schemas field that code outside the parser touches (set computed from SSA each run).",
+  "JSON half only: the YAML spelling goes through goccy/go-yaml's byte-level parser and is NOT covered. Schema documents are bounded (listed keys, E=1 entry per map, depth 2). Equal parsed values give equal output because generation is a deterministic function of the parsed value and the options (C12).")
+not_applicable_wip = {}
 m={
  "version":1,
  "setup_cmd":"cd /verif/engine && mkdir -p bin && GOFLAGS=-mod=mod GOPROXY=off GOSUMDB=off GOTOOLCHAIN=local GOWORK=off go build -o bin/gosym ./cmd/gosym",
